@@ -137,7 +137,9 @@ class AMF:
         ies=[ie_named(t,1,0,OS(b'amf')),
              ie_named(t,96,0,{'List':[{'GUAMI':guami}]}),
              ie_named(t,86,1,255),
-             ie_named(t,80,0,{'List':[{'PLMNIdentity':OS(exp),'SliceSupportList':{'List':[{'SNSSAI':snssai}]}}]})]
+             ie_named(t,80,0,{'List':([{'PLMNIdentity':OS(bytes([0x99,0xf9,0x99])),'SliceSupportList':{'List':[{'SNSSAI':snssai}]}}] if s.R.randrange(2) else [])+
+                                     [{'PLMNIdentity':OS(exp),'SliceSupportList':{'List':[{'SNSSAI':snssai}]}}]})]
+        # (an AMF may serve several PLMNs: the gNB's one need not come first in the PLMN Support List)
         return [mk_pdu(2,21,0,None,ies)]
     def check_uli(s,D,crit_expected):
         u=D[121]; need(int(u[0])==2,'ULI NR'); nr=u[2]
@@ -205,6 +207,9 @@ class AMF:
             inner=s.unprotect(ue,nas,{4}); need(inner[:3]==bytes([0x7e,0,0x5e]),'Security Mode Complete expected')
             opt=tlv_parse(inner[3:],{0x77:'TLV-E',0x71:'TLV-E'}); need(0x71 in opt,'NAS message container with full Registration Request')
             rr=opt[0x71]; need(rr[2]==0x41,'container holds Registration Request')
+            # the complete REGISTRATION REQUEST in the container carries the same subscriber identity (TS 24.501 5.4.2.3)
+            rn=int.from_bytes(rr[4:6],'big'); cm=suci_decode(bytes(rr[6:6+rn]))
+            need(cm[0]+cm[1]+cm[2]==ue.supi and (cm[0],cm[1])==(s.cfg['mcc'],s.cfg['mnc']),f'SUCI in the NAS message container identifies {cm[0]}/{cm[1]}/{cm[2]}, not {ue.supi}')
             ue.state='ics'
             ue.stmsi=bytes([0xfe>>0,0x00])+b'' ; ue.stmsi=bytes([s.R.randrange(256),s.R.randrange(256)])+bytes(s.R.randrange(256) for _ in range(4))
             guti=bytes([0xf2])+s.plmn+bytes([0xca])+ue.stmsi
